@@ -300,3 +300,86 @@ type vTemplateCache struct{ *verifk8s.Cache }
 func (c *vTemplateCache) OwnersForGKV(schema.GroupVersionKind) []dynamiccache.OwnerReference {
 	return nil
 }
+
+// VerifC18ClusterTemplate: a ClusterObjectTemplate is not confined to a namespace: its sources are read where they say
+// they are (a namespaced source names its namespace, a cluster-scoped one has none) and the target is written where the
+// template puts it. The target is written iff every required source exists; a missing required source is reported.
+func VerifC18ClusterTemplate() {
+	c := verifk8s.NewClient()
+	uncached := verifk8s.NewClient()
+	cache := verifk8s.NewCache()
+	mapper := &verifk8s.RESTMapper{Scope: map[string]int{}}
+	ctl := newGenericObjectTemplateController(c, uncached, logr.Discard(), &vTemplateCache{Cache: cache}, vScheme(), mapper,
+		adapters.NewGenericClusterObjectTemplate, ControllerConfig{OptionalResourceRetryInterval: 11 * time.Second, ResourceRetryInterval: 13 * time.Second})
+	ctl.SetEnvironment(&manifests.PackageEnvironment{})
+	ot := &corev1alpha1.ClusterObjectTemplate{}
+	ot.Name, ot.UID = "t", "uid-t"
+	ot.Generation = 2
+	ot.Finalizers = []string{constants.CachedFinalizer}
+	n := verifrt.IntRange("nSources", 1, verifrt.Bound("maxSources", 2))
+	allRequiredFound := true
+	for k := 0; k < n; k++ {
+		p := "source" + strconv.Itoa(k)
+		kind := "SrcKind" + strconv.Itoa(k)
+		optional := verifrt.Bool(p + ".optional")
+		ns := "src-ns"
+		mapper.Scope[kind] = verifk8s.ScopeNamespaced
+		if verifrt.Bool(p + ".clusterScoped") {
+			ns = ""
+			mapper.Scope[kind] = verifk8s.ScopeCluster
+		}
+		ot.Spec.Sources = append(ot.Spec.Sources, corev1alpha1.ObjectTemplateSource{APIVersion: "example.com/v1", Kind: kind, Namespace: ns, Name: p,
+			Optional: optional, Items: []corev1alpha1.ObjectTemplateSourceItem{{Key: ".data.k", Destination: ".k" + strconv.Itoa(k)}}})
+		so := &unstructured.Unstructured{Object: map[string]interface{}{"data": map[string]interface{}{"k": "v"}}}
+		so.SetAPIVersion("example.com/v1")
+		so.SetKind(kind)
+		so.SetName(p)
+		so.SetNamespace(ns)
+		switch verifrt.IntRange(p+".where", 0, 2) { // cache | API only | nowhere
+		case 0:
+			cache.Put(so)
+		case 1:
+			uncached.Put(so)
+		case 2:
+			if !optional {
+				allRequiredFound = false
+			}
+		}
+	}
+	tNS := "target-ns"
+	mapper.Scope["TargetKind"] = verifk8s.ScopeNamespaced
+	if verifrt.Bool("target.clusterScoped") {
+		tNS = ""
+		mapper.Scope["TargetKind"] = verifk8s.ScopeCluster
+	}
+	target := map[string]interface{}{"apiVersion": "example.com/v1", "kind": "TargetKind", "metadata": map[string]interface{}{"name": "target"}}
+	if tNS != "" {
+		target["metadata"].(map[string]interface{})["namespace"] = tNS
+	}
+	tb, _ := json.Marshal(target)
+	ot.Spec.Template = string(tb)
+	c.Put(ot)
+	_, err := ctl.Reconcile(context.Background(), ctrl.Request{NamespacedName: types.NamespacedName{Name: "t"}})
+	var targetWrites, statusUpdates []verifk8s.Call
+	for _, call := range c.Calls {
+		switch {
+		case call.Key.Name == "target" && call.IsRealWrite():
+			targetWrites = append(targetWrites, call)
+		case call.Verb == "status-update":
+			statusUpdates = append(statusUpdates, call)
+		}
+	}
+	verifrt.Assert((len(targetWrites) == 1) == allRequiredFound && len(targetWrites) <= 1, "C18/cluster-template-target-written-iff-required-sources-exist")
+	if allRequiredFound {
+		verifrt.Assert(err == nil && targetWrites[0].Key.Namespace == tNS, "C18/cluster-template-target-written-where-the-template-says")
+		verifrt.Reach("cluster-applied")
+	} else {
+		ok := len(statusUpdates) == 1
+		if ok {
+			st, reason, found := vCondition(statusUpdates[0].Obj, corev1alpha1.ObjectTemplateInvalid)
+			ok = found && st == "True" && reason == "SourceError"
+		}
+		verifrt.Assert(ok, "C18/problem-reported-in-invalid-condition")
+		verifrt.Reach("cluster-invalid")
+	}
+}
